@@ -14,6 +14,9 @@ UImp(n, f, r) == [name |-> n, kind |-> "import", ref |-> r, prefix |-> NoneS, fi
 \* a concrete component: variable "v" [units, init] and optionally "v2" [units2, "2"]; cn: units used only by a cn element; kids: encapsulated children
 Comp(n, u, init, u2, cn, kids) == [name |-> n, kind |-> "leaf", units |-> u, init |-> init, units2 |-> u2, cn |-> cn, kids |-> kids, file |-> NoneS, ref |-> NoneS]
 CImp(n, f, r) == [name |-> n, kind |-> "import", units |-> NoneS, init |-> NoneS, units2 |-> NoneS, cn |-> NoneS, kids |-> <<>>, file |-> f, ref |-> r]
+\* an import placeholder that is, in the importing file, the parent of local components
+CImpK(n, f, r, kids) == [name |-> n, kind |-> "import", units |-> NoneS, init |-> NoneS, units2 |-> NoneS, cn |-> NoneS, kids |-> kids, file |-> f, ref |-> r]
+BagAdd(a, b) == [x \in DOMAIN a \cup DOMAIN b |-> (IF x \in DOMAIN a THEN a[x] ELSE 0) + (IF x \in DOMAIN b THEN b[x] ELSE 0)]
 Conn(c1, v1, c2, v2) == [c1 |-> c1, v1 |-> v1, c2 |-> c2, v2 |-> v2]
 File(us, cs, conns) == [status |-> "ok", units |-> us, comps |-> cs, conns |-> conns]
 Has(seq, n) == \E i \in DOMAIN seq : seq[i].name = n
@@ -49,10 +52,14 @@ RECURSIVE CSig(_, _, _, _, _)
 CSig(w, f, c, outer, depth) ==
     LET d == Get(w[f].comps, c)
         mine == [v \in {"v", "v2"} |-> outer[v] \cup Partners(w, f, c, v)]
-    IN IF d.kind = "import" THEN CSig(w, d.file, d.ref, mine, depth - 1)
+    IN IF d.kind = "import"
+       THEN LET s == CSig(w, d.file, d.ref, mine, depth - 1) IN     \* the instance keeps the placeholder's local children next to the imported ones
+            [vars |-> s.vars, kids |-> BagAdd(s.kids, BagOf([k \in DOMAIN d.kids |-> CSig(w, f, d.kids[k], [v \in {"v", "v2"} |-> {}], depth - 1)]))]
        ELSE [vars |-> {[name |-> v, units |-> USig(w, f, VarUnits(d, v), 6), init |-> VarInit(d, v), eq |-> mine[v]] : v \in (IF d.units2 = NoneS THEN {"v"} ELSE {"v", "v2"})},
              kids |-> BagOf([k \in DOMAIN d.kids |-> CSig(w, f, d.kids[k], [v \in {"v", "v2"} |-> {}], depth - 1)])]
-ExpectedTop(w) == {[name |-> w["root"].comps[i].name, sig |-> CSig(w, "root", w["root"].comps[i].name, [v \in {"v", "v2"} |-> {}], 6)] : i \in DOMAIN w["root"].comps}
+ChildNames(f) == UNION {{f.comps[i].kids[k] : k \in DOMAIN f.comps[i].kids} : i \in DOMAIN f.comps}
+ExpectedTop(w) == {[name |-> w["root"].comps[i].name, sig |-> CSig(w, "root", w["root"].comps[i].name, [v \in {"v", "v2"} |-> {}], 6)] :
+                      i \in {k \in DOMAIN w["root"].comps : w["root"].comps[k].name \notin ChildNames(w["root"])}}
 
 \* ---------------------------------------------------------------- the flat model as the executor logged it
 \* ev.ufam: UnitsAlgebra family of the flat model's units; ev.comps: [name, parent, vars: [name, units, init, eq: [[name, init]]]]
@@ -92,6 +99,14 @@ Worlds ==
                      f1 |-> File(<<URef("u", "metre", "kilo")>>, <<>>, <<>>)],
      cnOnly |-> [root |-> File(<<>>, <<CImp("ic", "f1", "c")>>, <<>>),
                  f1 |-> File(<<URef("onlycn", "second", "micro"), URef("ms", "second", "milli")>>, <<Comp("c", "ms", "11", NoneS, "onlycn", <<>>)>>, <<>>)],
+     \* two <math> elements in the imported component (and in its child): the units of the first one are named nowhere else
+     cnTwoBlocks |-> [root |-> File(<<>>, <<CImp("ic", "f1", "c")>>, <<>>),
+                      f1 |-> File(<<URef("onlycn", "second", "micro"), URef("ms", "second", "milli"), URef("kcn", "gram", "kilo")>>,
+                                  <<Comp("c", "ms", "11", NoneS, "onlycn|ms", <<"k">>), Comp("k", "second", "12", NoneS, "kcn|second|ms", <<>>)>>, <<Conn("c", "v", "k", "v")>>)],
+     \* the import placeholder is the encapsulation parent of three local components
+     localKids |-> [root |-> File(<<URef("ms", "second", "milli")>>, <<CImpK("ic", "f1", "c", <<"a", "b", "d">>), Comp("a", "second", "1", NoneS, NoneS, <<>>), Comp("b", "ms", "2", NoneS, NoneS, <<>>),
+                                                                      Comp("d", "second", "3", NoneS, NoneS, <<>>)>>, <<Conn("ic", "v", "a", "v"), Conn("ic", "v", "d", "v")>>),
+                    f1 |-> File(<<>>, <<Comp("c", "second", "11", NoneS, NoneS, <<"k">>), Comp("k", "second", "12", NoneS, NoneS, <<>>)>>, <<Conn("c", "v", "k", "v")>>)],
      compNeedsImportedUnits |-> [root |-> File(<<>>, <<CImp("ic", "f1", "c")>>, <<>>), f1 |-> File(<<UImp("uu", "f2", "v")>>, <<Comp("c", "uu", "11", NoneS, NoneS, <<>>)>>, <<>>),
                                  f2 |-> File(<<URef("v", "gram", "milli")>>, <<>>, <<>>)],
      importedChild |-> [root |-> File(<<>>, <<CImp("ic", "f1", "c")>>, <<>>), f1 |-> File(<<>>, <<Comp("c", "metre", "11", NoneS, NoneS, <<"k">>), CImp("k", "f2", "d")>>, <<Conn("c", "v", "k", "v")>>),
